@@ -70,6 +70,15 @@ CLAIMED.update({
   design="DESIGN.md §4.C09"),
 })
 
+CLAIMED.update({
+ "C18": dict(
+  text="Deductive proof of freshness/ownership postconditions on the API entries that take or return Go arrays, maps or sequences: every constructor of Array, List, Set, Stack, Catalog, Map and the iterator "
+       "returns an object whose backing store was allocated inside the call (fresh), AsArray/GetValues/GetKeys/RemoveValues/GetIterator and the class functions return fresh results (Iterator.MakeFromArray requires a locally fresh array at every call site), "
+       "and the bulk operations are verified without assuming that the operand differs from the receiver (self-operand calls behave as with a copy). Frame obligations show that nothing but the receiver's own representation is written.",
+  note="Not covered: Queue entries (they involve the mutex/channel machinery of C04, not yet under contract). Trusted: front end, engine, solvers; ownership discipline (representation objects are never shared between collections) is established by these very freshness postconditions.",
+  design="DESIGN.md §4.C18"),
+})
+
 NOT_YET = {}
 
 TECH = "contract-based deductive verification: weakest-precondition style VCs generated from go/ssa of /repo, contracts in //go:build verif comment files, discharged by z3 5.1 / z3 4.8 / cvc5"
